@@ -385,6 +385,8 @@ func TabCodec(p *load.Program) *report.RuleResult {
 		{"bitstream.readDecimal", []string{"readVarIntLen", "readBigInt"}, []string{"readVarUintLen"}, "exponent VarInt, coefficient Int"},
 		{"bitstream.ReadAnnotations", []string{"readVarUintLen"}, []string{"readVarIntLen"}, "annotation IDs VarUInt"},
 		{"bitstream.ReadFieldID", []string{"readVarUint"}, []string{"readVarIntLen"}, "field name VarUInt"},
+		{"bitstream.ReadInt", []string{"readN"}, []string{"readBigInt", "readVarIntLen", "readVarUintLen"}, "int: an unsigned magnitude of b.len bytes (the sign is in the type code); readBigInt decodes the sign-magnitude Int subfield"},
+		{"bitstream.ReadSymbolID", []string{"readN"}, []string{"readBigInt", "readVarIntLen", "readVarUintLen"}, "symbol value: UInt"},
 	}
 	for _, w := range rtable {
 		fn := p.Func(nil, w.fn)
